@@ -60,6 +60,12 @@ def generate(prop, rng, run, tier):
         data = text.encode(codec)
     except UnicodeEncodeError:
         data = text.encode(codec, "ignore")
+    if prop == "C05" and rng.random() < 0.06 and len(data) > 3:
+        # an unterminated last value / a multi-byte character cut off at the very end
+        data = data.rstrip(b";\r\n").rstrip(b"\\")     # (a trailing unpaired backslash is excluded: C03)
+        if rng.random() < 0.6:
+            data = data[:len(data) - rng.randint(0, 2)] + rng.choice(
+                [b"\xc3", b"\xe3\x81", b"\xe9", b"\x82", b"\xf0\x9d\x84", b""])
     # try list
     r = rng.random()
     if r < 0.6:
@@ -144,6 +150,9 @@ def generate(prop, rng, run, tier):
         cfg["short_writes"] = rng.randint(1, 10 ** 6)
     if rng.random() < 0.3:
         cfg["spelling"] = rng.choice(["dslash", "dot", "rel"])
+    if prop == "C06" and text.isascii() and rng.random() < 0.5:
+        # keyword arguments are passed to open(): a caller-chosen error handler
+        cfg["errors"] = rng.choice(["replace", "ignore", "strict", "backslashreplace"])
     if prop == "C05":
         cfg["followup_noop"] = True
         if rng.random() < 0.35:
@@ -248,6 +257,8 @@ def run_once(sc, fault=None, body_raise=None, spoil=None, noop_on=None, hooks=No
         kw["try_encodings"] = list(cfg["try_encodings"])
     if cfg.get("buffering") is not None and cfg["buffering"] >= 2:
         kw["buffering"] = cfg["buffering"]
+    if cfg.get("errors"):
+        kw["errors"] = cfg["errors"]
     kw["strict"] = bool(cfg.get("strict", True))
     if hooks:
         disk.on_open_w = hooks.get("on_open_w")
@@ -314,6 +325,20 @@ def _apply_spoil(sf, model, spoil, lib):
             v = (model.items[0][1] or "") + ch
             sf[k] = v
             model.set(k, v)
+        elif where == "key":
+            sf["K" + ch.upper()] = "x"
+            model.set("K" + ch.upper(), "x")
+        elif where in ("extradata", "chart-field", "chart-notes") and model.charts:
+            c, mc = sf.charts[-1], model.charts[-1]
+            if where == "extradata" and isinstance(mc, models.RefSMChart):
+                c.extradata = ["e", "x" + ch]
+                mc.extra = ["e", "x" + ch]
+            elif where == "chart-notes":
+                c.notes = "0000" + ch
+                mc.set(mc.attr_key("notes"), "0000" + ch)
+            else:
+                c.description = "d" + ch
+                mc.set("DESCRIPTION", "d" + ch)
         else:
             sf["ZZLAST"] = "x" + ch
             model.set("ZZLAST", "x" + ch)
@@ -479,6 +504,11 @@ def check_c05(sc, res):
         res.note("loaderr", facade, expect.exc)
         return
     if not o.entered:
+        if bak and not serialisable(expect):
+            # the stored simfile itself cannot be serialised (an SSC chart without note
+            # data): the backup copy taken at block entry fails - C06's domain, not C05's
+            res.stats["outside-domain:entry-unserialisable"] += 1
+            return
         res.violate(P, "load-failed", escaped=repr(o.escaped), enc=enc)
         return
     if o.entry_plain != expect.plain():
@@ -808,6 +838,11 @@ def check_c06(sc, res):
         if o.escaped is None:
             if spoil["what"] == "unencodable" and gen.encodable(spoil["char"], enc):
                 return
+            if spoil["what"] == "unencodable" and cfg.get("errors") in ("replace", "ignore",
+                                                                        "backslashreplace"):
+                # the caller asked for lossy encoding: the save legitimately succeeds
+                res.stats["probe:lossy-errors-handler-saved"] += 1
+                return
             res.violate(P, "unsaveable-simfile-saved-silently", spoil=spoil)
             return
         files = o.after[0]
@@ -926,7 +961,7 @@ def check_c06(sc, res):
     spoils = [{"what": "int-value"}, {"what": "bytes-value"}]
     if kind == "ssc":
         spoils.append({"what": "chart-without-notes"})
-    for where in ("early", "late"):
+    for where in ("early", "late", "key", "extradata", "chart-field", "chart-notes"):
         spoils.append({"what": "unencodable", "char": _unencodable_char(enc), "where": where})
     for sp in spoils:
         sub_spoil(sp)
